@@ -267,7 +267,20 @@ fn curve2(spec: &Curve2Spec, t: &Iso2D, t2: &Iso2D, qs: &[P2], ls: &[f64]) -> Ve
             }
         };
         cx.label_if(cusp, "station_at_cusp");
-        if !s0.direction().x.is_nan() && !cusp {
+        // the direction is discontinuous at a vertex and the two curves' total lengths differ by rounding, so the same
+        // fraction may fall on either side of (or exactly on) a vertex in the two frames: compared only clear of vertices
+        let near_vertex = {
+            let v = c.points();
+            let mut acc = 0.0;
+            let mut near = l <= 1e-9 * total || (total - l) <= 1e-9 * total;
+            for w in v.windows(2) {
+                acc += (w[1] - w[0]).norm();
+                near |= (acc - l).abs() <= 1e-9 * total;
+            }
+            near && !(s0.fraction() == 0.0 || s0.fraction() == 1.0) || (near && s1.fraction() != s0.fraction())
+        };
+        cx.label_if(near_vertex, "station_beside_vertex");
+        if !s0.direction().x.is_nan() && !cusp && !near_vertex {
             ensure!((iso.rotation * s0.direction().into_inner() - s1.direction().into_inner()).norm() <= 1e-7, "C03/curve2/station_direction", "station direction is not rotated only");
         }
     }
@@ -339,7 +352,20 @@ fn curve3(spec: &Curve3Spec, t: &Iso3D, t2: &Iso3D, qs: &[P3], ls: &[f64]) -> Ve
             }
         };
         cx.label_if(cusp, "station_at_cusp");
-        ensure!(cusp || s0.direction().x.is_nan() || (iso.rotation * s0.direction().into_inner() - s1.direction().into_inner()).norm() <= 1e-7, "C03/curve3/station_direction", "station direction is not rotated only");
+        let near_vertex = {
+            let v = c.points();
+            let total = c.length();
+            let l = f * total;
+            let mut acc = 0.0;
+            let mut near = l <= 1e-9 * total || (total - l) <= 1e-9 * total;
+            for w in v.windows(2) {
+                acc += (w[1] - w[0]).norm();
+                near |= (acc - l).abs() <= 1e-9 * total;
+            }
+            near && !(s0.fraction() == 0.0 || s0.fraction() == 1.0) || (near && s1.fraction() != s0.fraction())
+        };
+        cx.label_if(near_vertex, "station_beside_vertex");
+        ensure!(cusp || near_vertex || s0.direction().x.is_nan() || (iso.rotation * s0.direction().into_inner() - s1.direction().into_inner()).norm() <= 1e-7, "C03/curve3/station_direction", "station direction is not rotated only");
     }
     let back = tc.transformed_by(&iso.inverse());
     ensure!(back.count() == c.count(), "C03/curve3/inverse", "T^-1 T changed the count");
